@@ -314,6 +314,92 @@ def props_of(sid):
     return []
 
 
+# ---------------------------------------------------------------------------
+# Structural sites: facts about the shape of a function, emitted as Gallina string lists and tied
+# (by reflexivity) to what the model assumes.
+def calls_in(fn, watch):
+    out = []
+    for node in ast.walk(fn):
+        if isinstance(node, ast.Call):
+            name = ast.unparse(node.func)
+            if name in watch:
+                out.append((node.lineno, node.col_offset, name))
+    return [n for _, _, n in sorted(out)]
+
+
+def divided_fields(fn):
+    """targets of `x.attr /= ...` with the chain of loop collections leading to x, and plain attribute assignments"""
+    out = []
+
+    def walk(body, path):
+        for st in body:
+            if isinstance(st, ast.For) and isinstance(st.target, ast.Name):
+                coll = ast.unparse(st.iter).split(".")[-1]
+                walk(st.body, path + [(st.target.id, coll)])
+            elif isinstance(st, ast.AugAssign) and isinstance(st.op, ast.Div) and isinstance(st.target, ast.Attribute):
+                owner = ast.unparse(st.target.value)
+                chain = ".".join(c for _, c in path if True)
+                out.append("%s.%s /= %s" % (chain, st.target.attr, ast.unparse(st.value).split(".")[-1]))
+            elif isinstance(st, ast.Assign) and len(st.targets) == 1 and isinstance(st.targets[0], ast.Attribute):
+                out.append("%s = %s" % (st.targets[0].attr, ast.unparse(st.value)))
+            elif isinstance(st, (ast.If, ast.With)):
+                walk(st.body, path)
+    walk(fn.body, [])
+    return out
+
+
+STRUCT_SITES = [
+    # (id, file, function, extractor, expected, properties)
+    ("ingen_fields", "demes/demes.py", "Graph.in_generations", lambda fn: divided_fields(fn),
+     ["demes.start_time /= generation_time", "demes.epochs.start_time /= generation_time",
+      "demes.epochs.end_time /= generation_time", "migrations.start_time /= generation_time",
+      "migrations.end_time /= generation_time", "pulses.time /= generation_time",
+      "time_units = 'generations'", "generation_time = 1"], ["C11"]),
+    ("load_asdict_pipeline", "demes/load_dump.py", "load_asdict",
+     lambda fn: calls_in(fn, {"json.load", "_load_yaml_asdict", "_no_null_values", "_unstringify_infinities"}),
+     ["json.load", "_load_yaml_asdict", "_no_null_values", "_unstringify_infinities"], ["C16", "C03", "C04"]),
+    ("load_all_pipeline", "demes/load_dump.py", "load_all",
+     lambda fn: calls_in(fn, {"yaml.load_all", "_no_null_values", "_unstringify_infinities", "demes.Graph.fromdict"}),
+     ["yaml.load_all", "_no_null_values", "_unstringify_infinities", "demes.Graph.fromdict"], ["C16", "C03", "C04"]),
+    ("loads_asdict_pipeline", "demes/load_dump.py", "loads_asdict", lambda fn: calls_in(fn, {"load_asdict"}), ["load_asdict"], ["C16"]),
+    ("loads_pipeline", "demes/load_dump.py", "loads", lambda fn: calls_in(fn, {"loads_asdict", "demes.Graph.fromdict"}),
+     ["loads_asdict", "demes.Graph.fromdict"], ["C16"]),
+    ("load_pipeline", "demes/load_dump.py", "load", lambda fn: calls_in(fn, {"load_asdict", "demes.Graph.fromdict"}),
+     ["load_asdict", "demes.Graph.fromdict"], ["C16"]),
+    ("dump_pipeline", "demes/load_dump.py", "dump",
+     lambda fn: calls_in(fn, {"graph.asdict_simplified", "graph.asdict", "_stringify_infinities", "json.dump", "_dump_yaml_fromdict"}),
+     ["graph.asdict_simplified", "graph.asdict", "_stringify_infinities", "json.dump", "_dump_yaml_fromdict"], ["C04", "C16"]),
+    ("dump_all_pipeline", "demes/load_dump.py", "dump_all",
+     lambda fn: calls_in(fn, {"graph.asdict_simplified", "graph.asdict", "_dump_yaml_fromdict", "_stringify_infinities"}),
+     ["graph.asdict_simplified", "graph.asdict", "_dump_yaml_fromdict"], ["C04"]),
+    ("open_polymorph_calls", "demes/load_dump.py", "_open_file_polymorph", lambda fn: calls_in(fn, {"open", "f.close"}),
+     ["open", "f.close"], ["C17"]),
+    ("fromdict_copy", "demes/demes.py", "Graph.fromdict", lambda fn: calls_in(fn, {"_copy_unshared", "copy.deepcopy", "copy.copy"}),
+     ["_copy_unshared"], ["C18", "C02"]),
+    ("resolve_is_fromdict", "demes/demes.py", "Builder.resolve", lambda fn: calls_in(fn, {"Graph.fromdict"}), ["Graph.fromdict"], ["C18"]),
+    ("cli_lookahead", "demes/__main__.py", "ParseCommand.load_and_count_documents",
+     lambda fn: calls_in(fn, {"demes.load_all", "graph_list.append", "itertools.chain", "next"}),
+     ["demes.load_all", "graph_list.append", "itertools.chain"], ["C19"]),
+]
+
+
+def structural():
+    cache, items, report = {}, [], []
+    for sid, path, qual, ext, expected, props in STRUCT_SITES:
+        if path not in cache:
+            cache[path] = load(path)
+        fn = cache[path].get(qual)
+        if fn is None:
+            report.append(dict(site=sid, file=path, function=qual, index=None, status="function %s not found" % qual,
+                               source=None, props=props))
+            continue
+        got = ext(fn)
+        status = "ok" if got == expected else "tie broken: structure is %r, the model assumes %r" % (got, expected)
+        report.append(dict(site=sid, file=path, function=qual, index=None, status=status, source="; ".join(got), props=props))
+        items.append((sid, got, expected))
+    return items, report
+
+
 def load(path):
     src = open(os.path.join(REPO, path)).read()
     return qual_functions(ast.parse(src))
@@ -407,9 +493,15 @@ def cmd_gen(outdir, coqdir="/verif/coq"):
     xlate_report.json; returns the report (one entry per site with status ok / broken / untranslated)."""
     import subprocess
     guards, ties, report = generate()
+    sitems, sreport = structural()
+    report += sreport
     os.makedirs(outdir, exist_ok=True)
+
+    def coqlist(l):
+        return "[" + "; ".join('"%s"' % x.replace('"', "'") for x in l) + "]"
     with open(os.path.join(outdir, "SrcGuards.v"), "w") as f:
-        f.write(HEADER + "\nSection SrcGuards.\n  Context {N : NumOps}.\n\n" + "\n".join(guards) + "End SrcGuards.\n")
+        f.write(HEADER + "\n" + "\n".join("Definition s_%s : list string := %s." % (sid, coqlist(got)) for sid, got, _ in sitems)
+                + "\n\nSection SrcGuards.\n  Context {N : NumOps}.\n\n" + "\n".join(guards) + "End SrcGuards.\n")
     byid = {r["site"]: r for r in report}
 
     def coqc(name):
@@ -438,7 +530,10 @@ def cmd_gen(outdir, coqdir="/verif/coq"):
             for sid, stmt in ties:
                 if byid[sid]["status"] == "ok":
                     f.write("  Lemma tie_%s : %s.\n  Proof. unfold g_%s; tie. Qed.\n\n" % (sid, stmt, sid))
-            f.write("End GuardTie.\n")
+            f.write("End GuardTie.\n\n")
+            for sid, got, expected in sitems:
+                if got == expected:
+                    f.write("Lemma tie_%s : s_%s = %s.\nProof. reflexivity. Qed.\n" % (sid, sid, coqlist(expected)))
         r = coqc("GuardTie.v")
         if r.returncode != 0:
             for x in report:
